@@ -30,6 +30,9 @@ func c17(tier string) []*explore.Scenario {
 	}
 	for _, dial := range []string{"fails", "succeeds", "pending"} {
 		out = append(out, c17AttachDuringDial("C17", dial, bound))
+		if dial != "pending" {
+			out = append(out, c17AttachRacesRouting("C17", dial, bound+1))
+		}
 	}
 	out = append(out, c17OpSeqs("C17", tier)...)
 	out = append(out, c17CancelWhileWriting(bound))
@@ -911,6 +914,68 @@ func c17CancelWhileWriting(bound int) *explore.Scenario {
 				p.B.Break()
 			}
 			vsched.Quiesce()
+		},
+	}
+}
+
+// c17AttachRacesRouting: peer c attaches itself (AddClient from its own thread) while the first
+// envelope for the still unknown name c is being routed - the proxy's decision to dial and the
+// registration of the attached connection race. Whichever wins, c's own connection is the
+// newer one once AddClient has returned: envelopes sent after that reach it exactly once.
+func c17AttachRacesRouting(prop, dial string, bound int) *explore.Scenario {
+	fam := prop + "/attach-races-routing"
+	return &explore.Scenario{
+		Name: prop + "/attach-races-routing/dial-" + dial, Family: fam, Prop: prop, Bound: bound,
+		Run: func() {
+			t, peers := c17Env(4)
+			dialled := env.NewPipe(t.Tap, env.PipeOpts{Name: "cdial", Cap: 4})
+			if dial == "fails" {
+				t.DialErr["c"] = errors.New("no route to c")
+			} else {
+				t.Extra["c"] = dialled
+			}
+			vsched.Settle()
+			vsched.Explore(true)
+			own := env.NewPipe(t.Tap, env.PipeOpts{Name: "c", Cap: 4})
+			attached := false
+			peers["a"].A.Inject(c17Msg(80, "a", "c"))
+			vsched.GoNamed("attach-c", func() { t.Proxy.AddClient("c", own.B); attached = true })
+			vsched.Quiesce()
+			peers["a"].A.Inject(c17Msg(81, "a", "c"))
+			vsched.Quiesce()
+			peers["a"].A.Inject(c17Msg(82, "a", "b"))
+			peers["a"].A.Inject(c17Msg(83, "a", "c"))
+			vsched.Quiesce()
+			count := func(wire string, id uint64) int {
+				n := 0
+				for _, e := range t.Tap.Events {
+					if e.Wire == wire && e.Rpc.GetId() == id {
+						n++
+					}
+				}
+				return n
+			}
+			vsched.Obs("dial %s attached=%v: 80 own=%d dialled=%d | 81 own=%d | 83 own=%d | 82 b=%d | dialed=%v disconnects=%v", dial, attached, count("c", 80), count("cdial", 80), count("c", 81), count("c", 83), delivered(t, "b", 82), t.Dialed, t.Disconnects)
+			if !attached {
+				vsched.Fail(fam+"|attach-hang", "AddClient did not return")
+				return
+			}
+			for _, id := range []uint64{81, 83} {
+				if n := count("c", id); n != 1 {
+					vsched.Fail(fam+"|newer-connection-disturbed", "c attached itself while the first envelope for c was being routed (dial %s): envelope %d, sent after AddClient returned, reached the attached connection %d times (the dialled one %d times)", dial, id, n, count("cdial", id))
+				}
+			}
+			for _, d := range t.Disconnects {
+				if d == "c" && dial != "fails" {
+					vsched.Fail(fam+"|healthy-reported", "c was reported disconnected although neither of its connections failed")
+				}
+			}
+			if n := delivered(t, "b", 82); n != 1 {
+				vsched.Fail(fam+"|bystander-traffic", "envelope 82 a->b was delivered %d times", n)
+			}
+			if n := count("c", 80) + count("cdial", 80); n > 1 {
+				vsched.Fail(fam+"|duplicate", "envelope 80 was delivered %d times", n)
+			}
 		},
 	}
 }
